@@ -1,6 +1,7 @@
 (* Evaluators used by the C08 correspondence cases (harness/src/bin/c08.rs).  Style: stdlib. *)
 From TV Require Import Base.Prelude Generated.Constants
-  Columnar.BitPack Columnar.MonoMap Columnar.Stats Columnar.Line Columnar.Blockwise Columnar.OptionalIndex Columnar.Spec.
+  Columnar.BitPack Columnar.MonoMap Columnar.Stats Columnar.Line Columnar.Blockwise Columnar.OptionalIndex Columnar.Spec
+  Columnar.OptionalIndexProofs Columnar.MultiValued Columnar.MergeIndex Columnar.LegacyV1.
 Local Open Scope N_scope.
 
 (* a model reader applied to the implementation's bytes answers `expect` at the indexes `idxs` *)
@@ -27,3 +28,23 @@ Definition opt_spec (rows docs ranks er : list N) (erie : list (option N)) (esel
   n_list_eqb (map (spec_rank rows) docs) er &&
   list_eqb option_n_eqb (map (spec_rank_if_exists rows) docs) erie &&
   list_eqb option_n_eqb (map (spec_select rows) ranks) (map Some esel).
+
+(* legacy (v1) multivalued column: the model of Column::get_docids_for_value_range (with the pinned test of
+   select_batch_in_place) answers `got` *)
+Definition mv1_range_tie (starts values : list N) (lo hi : N) (d0 d1 : nat) (got : list nat) : bool :=
+  match mv1_docids_for_value_range mv1_select_excl starts values lo hi d0 d1 with
+  | Some l => nat_list_eqb l got
+  | None => false
+  end.
+(* stack merge with legacy inputs: the model of the merged multivalued index (pinned flags), read back, gives the
+   rows the implementation's merged column returns.  inputs: (legacy?, kind code 0..3, rows) *)
+Definition kind_of_code (k : N) : kind := match k with 0 => KEmpty | 1 => KFull | 2 => KOptional | _ => KMulti end.
+Definition v1_stack_tie (inputs : list (bool * N * column)) (impl_rows : column) : bool :=
+  let lkcs := map (fun i => (fst (fst i), kind_of_code (snd (fst i)), snd i)) inputs in
+  let ins := map si_of lkcs in
+  let values := concat (concat (map snd inputs)) in
+  let n := N.of_nat (length (concat (map snd inputs))) in
+  match si_stack_rows stack_v1_docs_shifted ins 0 with
+  | Some docs => column_eqb (read_merged_rows docs (si_start_offsets stack_num_values_skips_empty ins) values n) impl_rows
+  | None => false
+  end.
